@@ -288,7 +288,20 @@ func (a *oauth2IntrospectionAuthenticator) getSubjectInformation(ctx heimdall.Co
 		if entry, err := cch.Get(ctx.AppContext(), cacheKey); err == nil {
 			logger.Debug().Msg("Reusing introspection response from cache")
 
-			return entry, nil
+			// the cached response might originate from a rule with other assertions
+			var cached oauth2.IntrospectionResponse
+			if err = json.Unmarshal(entry, &cached); err == nil {
+				if err = cached.Validate(a.a.Merge(oauth2.Expectation{
+					TrustedIssuers: []string{metadata.Issuer},
+				})); err != nil {
+					return nil, errorchain.
+						NewWithMessage(heimdall.ErrAuthentication, "access token does not satisfy assertion conditions").
+						WithErrorContext(a).
+						CausedBy(err)
+				}
+
+				return entry, nil
+			}
 		}
 	}
 
